@@ -1684,6 +1684,10 @@ class Interp:
             return obj.fields[name]
         if name == "__class__":
             return obj.cls
+        if name == "__dict__":
+            from .seqs import ObjDict
+
+            return ObjDict(obj)  # the instance attributes as a live dict view (pyvc.seqs.ObjDict)
         cls, ref = SRC.mro_lookup(obj.cls, name, "getter")
         if cls is not None and ref is not None and ref.role == "getter":
             return self.call_fnval(st, FnVal(ref, None, obj, cls), [], {})
